@@ -32,3 +32,4 @@ def run(chk):
     c20.strict_error_roundtrip(chk, "C02")
     from . import executor_contracts as X
     X.batch_replay_consistency(chk, "C02")
+    X.replay_items(chk, "C02")   # the batch rebuilt from records is classified with the SAME completion config as the first run
